@@ -798,9 +798,11 @@ def text_tie(ctx, exe, defs, streams, rng):
         if streams[cid] == "E" and v.startswith("DIFF"):
             # documented, text level: YAML and TOML value trees hold i64 integers
             rs = res[cid]
-            if rs["dsl"].get("status") == rs["json"].get("status") and rs["dsl"].get("tokens_hash") == rs["json"].get("tokens_hash") \
-                    and norm_mir(rs["dsl"].get("mir")) == norm_mir(rs["json"].get("mir")) \
-                    and all(rs[s].get("status") == "error" and (rs[s].get("mir") or "").startswith("ERR:") for s in ("yaml", "toml")):
+            same = lambda a, b: (rs[a].get("status") == rs[b].get("status") and rs[a].get("tokens_hash") == rs[b].get("tokens_hash")
+                                 and norm_mir(rs[a].get("mir")) == norm_mir(rs[b].get("mir")))
+            fe_err = lambda s: rs[s].get("status") == "error" and (rs[s].get("mir") or "").startswith("ERR:")
+            # YAML reaches u64 only through dd-manifest-tree's "0b..." string form; TOML not at all
+            if same("dsl", "json") and fe_err("toml") and (fe_err("yaml") or same("dsl", "yaml")):
                 v, det = "doc:int_beyond_i64_yaml_toml", None
         verdicts[cid] = (v, det)
     return verdicts, res, texts
@@ -1174,6 +1176,12 @@ OVR_DSL = [(re.compile(r"^No `(\w+)` is allowed on (\w+) overrides"), lambda m: 
            (re.compile(r"^No basic address specifier is allowed on (\w+) overrides"), lambda m: ["basic", m.group(1)])]
 
 
+def norm_model_string(x):
+    """`command X` (no value) and `command X { }` (no address) are two DSL spellings of one abstract command; the model
+    and the text may have picked different ones: the two messages are identified."""
+    return re.sub(r"^(error:dsl_missing:Command\|\w+)\|value$", r"\1|address", x)
+
+
 def real_as_model(r):
     """The real outcome of ONE front end in the format of MirShow.show_result_device (errors: the model's kinds)."""
     m = r.get("mir") or ""
@@ -1238,7 +1246,8 @@ def model_tie(ctx, exe, defs, streams, res, texts, rng, hist):
             except Exception as ex:
                 real = "unparsable:" + repr(ex)
             n += 1
-            if real != mpart:
+            if norm_model_string(real) != norm_model_string(mpart):
                 hist["model_diff_" + front] += 1
                 diffs.append({"id": cid, "front": front, "real": real, "model": mpart})
-    return {"definitions": len(ids), "comparisons": n, "coq_errors": errs, "diffs": diffs}
+    first = [{"id": d["id"], "front": d["front"], "real": (d["real"] or "")[:600], "model": (d["model"] or "")[:600]} for d in diffs[:3]]
+    return {"definitions": len(ids), "comparisons": n, "coq_errors": errs, "diffs": diffs, "first_diffs": first}
